@@ -42,6 +42,7 @@ pub enum M {
     Lent,
     LendClone,
     LendVia,
+    LendViaMut,
     // owned tracked values (C12)
     OwnSingle,
     OwnMulti,
@@ -57,6 +58,11 @@ pub enum M {
     S2,
     /// argument type whose Debug rendering can panic (reached while the mock renders an error)
     D0,
+    /// by-value and Rc receivers with an unmock function (C16)
+    Vu,
+    RcU,
+    /// provided method whose body formats `self` through Debug and Display supertraits (C15)
+    Show,
 }
 
 #[derive(Clone, Copy, Debug, PartialEq, Eq)]
@@ -112,6 +118,7 @@ pub const ALL_M: &[M] = &[
     M::Lent,
     M::LendClone,
     M::LendVia,
+    M::LendViaMut,
     M::OwnSingle,
     M::OwnMulti,
     M::OwnOpt,
@@ -124,6 +131,9 @@ pub const ALL_M: &[M] = &[
     M::S1,
     M::S2,
     M::D0,
+    M::Vu,
+    M::RcU,
+    M::Show,
 ];
 
 impl M {
@@ -159,6 +169,7 @@ impl M {
             M::Lent => ("Lend", "lent", false, false, false, Recv::Ref, false),
             M::LendClone => ("Lend", "lend_clone", false, false, false, Recv::Ref, false),
             M::LendVia => ("Lend", "lend_via", false, true, false, Recv::Ref, false),
+            M::LendViaMut => ("Lend", "lend_via_mut", false, true, false, Recv::Mut, false),
             M::OwnSingle => ("Own", "own_single", false, false, true, Recv::Ref, false),
             M::OwnMulti => ("Own", "own_multi", false, false, false, Recv::Ref, false),
             M::OwnOpt => ("Own", "own_opt", false, false, false, Recv::Ref, false),
@@ -171,6 +182,9 @@ impl M {
             M::S1 => ("Skip", "s1", false, false, false, Recv::Ref, false),
             M::S2 => ("Skip", "s2", false, false, true, Recv::Ref, false),
             M::D0 => ("DbgT", "d0", false, false, false, Recv::Ref, false),
+            M::Vu => ("ByValU", "vu", false, false, true, Recv::Val, false),
+            M::RcU => ("ByRcU", "rcu", false, false, true, Recv::Rc, false),
+            M::Show => ("FmtT", "show", false, true, false, Recv::Ref, false),
         };
         MInfo {
             m: self,
@@ -448,6 +462,9 @@ pub enum LendStep {
     Check,
     /// exclusive sessions only: ends all shared borrows, then `make_mut`
     MakeMut { val: u32 },
+    /// exclusive sessions only: a provided `&mut self` method whose default body lends through the
+    /// delegation helper
+    ViaMut { val: u32 },
     /// let other threads run
     Yield,
 }
